@@ -2,6 +2,8 @@ package main
 
 import (
 	"fmt"
+	"github.com/goatcms/goatcore/app/modules/pipelinem/pipservices"
+	"github.com/goatcms/goatcore/varutil"
 	"math/rand"
 	"runtime"
 	"sort"
@@ -48,6 +50,7 @@ type pipeTask struct {
 	Hold  int
 	K     int
 	Gated bool
+	BG    bool // the task runs in the background sandbox: Sandbox.Run returns at once, the body goes on as work registered in the task's scope
 }
 
 func (t *pipeTask) line() string {
@@ -66,6 +69,9 @@ func (t *pipeTask) line() string {
 	}
 	put("rlock", t.RList)
 	put("wlock", t.WList)
+	if t.BG {
+		sb.WriteString(" --sandbox=c15bg")
+	}
 	fmt.Fprintf(&sb, " --body=\"probe --id=%d\" --silent=true", t.ID)
 	return sb.String()
 }
@@ -211,6 +217,11 @@ func (p *pipeRun) probe(a app.App, ctx app.IOContext) (err error) {
 	if id < 0 {
 		return nil // warm-up task
 	}
+	return p.section(id)
+}
+
+// section is the body of task id: it marks the shadow cells of its resources, waits, unmarks.
+func (p *pipeRun) section(id int) (err error) {
 	t := p.tasks[id]
 	if t == nil {
 		return fmt.Errorf("probe: unknown id %d", id)
@@ -414,8 +425,15 @@ func pipeRandom(c *sup.Child, idx int, rng *rand.Rand, viol *int) {
 	pw := []float64{0.2, 0.5, 0.8, 1.0}[rng.Intn(4)]
 	maxSize := 1 + rng.Intn(4)
 	var ts []*pipeTask
+	bg := idx%4 == 3 // a quarter of the programs: some tasks run in a sandbox whose Run returns while the body goes on in the task's scope
+	nbg := 0
 	for i := 0; i < n; i++ {
-		ts = append(ts, genPipeTask(rng, i, npool, pw, maxSize))
+		t := genPipeTask(rng, i, npool, pw, maxSize)
+		if bg && rng.Intn(2) == 0 {
+			t.BG = true
+			nbg++
+		}
+		ts = append(ts, t)
 	}
 	c.Case(idx, map[string]any{"kind": "pipe-random", "lines": taskLines(ts)}, func(r *sup.CaseResult) {
 		defer func() { *viol += len(r.Violations) }()
@@ -424,6 +442,17 @@ func pipeRandom(c *sup.Child, idx int, rng *rand.Rand, viol *int) {
 		if err != nil {
 			r.Inconclusive = "application stack could not be built: " + err.Error()
 			return
+		}
+		if nbg > 0 {
+			var sdeps struct {
+				Sandboxes pipservices.SandboxesManager `dependency:"PipSandboxesManager"`
+			}
+			if err := mapp.DependencyProvider().InjectTo(&sdeps); err != nil {
+				r.Inconclusive = "sandboxes manager: " + err.Error()
+				return
+			}
+			sdeps.Sandboxes.Add(bgBuilder{p})
+			r.AddObs("pipe_tasks_in_the_background_sandbox", int64(nbg))
 		}
 		var wg sync.WaitGroup
 		var unfinished atomic.Int32
@@ -571,6 +600,18 @@ func pipePair(c *sup.Child, idx int, rng *rand.Rand, viol *int) {
 	pw := []float64{0.3, 0.6, 1.0}[rng.Intn(3)]
 	a := genPipeTask(rng, 0, npool, pw, 3)
 	b := genPipeTask(rng, 1, npool, pw, 3)
+	if idx%9 == 0 {
+		// the same global resource, written once as the only item and once after a comma and a
+		// blank (or a tab) in a longer list: both name "@g"
+		g := []string{"@g", "@a"}[rng.Intn(2)]
+		own := []string{"c", "Res", "_x"}[rng.Intn(3)]
+		sep := []string{" ", "\t", "  "}[rng.Intn(3)]
+		a = &pipeTask{ID: 0, WList: []string{g}, Req: map[string]bool{g: true}}
+		b = &pipeTask{ID: 1, WList: []string{own, sep + g}, Req: map[string]bool{own: true, g: true}, Quote: true}
+		if rng.Intn(2) == 0 {
+			a, b = &pipeTask{ID: 0, WList: b.WList, Req: b.Req, Quote: true}, &pipeTask{ID: 1, WList: a.WList, Req: a.Req}
+		}
+	}
 	a.Gated = true
 	a.Hold, b.Hold = 0, 0
 	ts := []*pipeTask{a, b}
@@ -714,4 +755,41 @@ func pipeScript(c *sup.Child, idx int, rng *rand.Rand, viol *int) {
 		r.Key = "script|" + script
 		r.Nontrivial = sections > 1
 	})
+}
+
+// bgSandbox: Run returns at once; the body goes on as work registered in the task's scope (the
+// task, and with it its resources, is busy until that work has signed off).
+type bgSandbox struct{ p *pipeRun }
+
+func (b bgSandbox) Run(ctx app.IOContext) error {
+	args, _, err := varutil.ReadArguments(ctx.IO().In())
+	if err != nil {
+		return err
+	}
+	id := -1
+	for _, a := range args {
+		if strings.HasPrefix(a, "--id=") {
+			id, _ = strconv.Atoi(strings.TrimPrefix(a, "--id="))
+		}
+	}
+	if id < 0 {
+		return fmt.Errorf("background sandbox: no probe id in %q", args)
+	}
+	if err := ctx.Scope().AddTasks(1); err != nil {
+		return err
+	}
+	go func() {
+		defer ctx.Scope().DoneTask()
+		if e := b.p.section(id); e != nil {
+			ctx.Scope().AppendError(e)
+		}
+	}()
+	return nil
+}
+
+type bgBuilder struct{ p *pipeRun }
+
+func (b bgBuilder) Is(name string) bool { return name == "c15bg" }
+func (b bgBuilder) Build(name string) (pipservices.Sandbox, error) {
+	return bgSandbox{b.p}, nil
 }
